@@ -124,7 +124,12 @@ var hashFns = []hashFn{
 	{"sha1", -1, sha1.New},
 	{"md5", -1, md5.New},
 	{"maphash(seeded)", -1, func() hash.Hash { h := new(maphash.Hash); h.SetSeed(mapSeed); return h }},
+	// functions whose state has the same Go type as an earlier one (per-type caches must not leak between them)
+	{"sha224", -1, sha256.New224},
+	{"maphash(second seed)", -1, func() hash.Hash { h := new(maphash.Hash); h.SetSeed(mapSeed2); return h }},
 }
+
+var mapSeed2 = maphash.MakeSeed()
 
 // independent reference: the Merkle function of the property text
 func refLeafPayload(v any) []byte {
@@ -492,8 +497,8 @@ func famHash(dir string, seed int64, tier string) {
 			repH.count("kind:" + kindClass(t.Kind))
 		}
 		for fi, f := range hashFns {
-			if f.id < 0 && n%3 != fi%3 && !thorough {
-				continue // the Go-only functions rotate over the cases
+			if f.id < 0 && n%3 != fi%3 && !thorough && n >= len(shapes) {
+				continue // the Go-only functions rotate over the cases (all of them on the hand-made shapes)
 			}
 			s1, e1 := sinkHash(ts, f)
 			s2, e2 := fillHashRoot(ts, f)
@@ -523,6 +528,28 @@ func famHash(dir string, seed int64, tier string) {
 				repH.Evaluations++
 				_ = e4
 				wH.add(fmt.Sprintf("HashCase %s %d %s %s %s %s", coqTokens(ts), f.id, dobs(s1, e1), coqEvents(evs), dobs(s2, e2), dobs(s3, e3)), "H="+f.name+" "+desc, len(ts) >= 2)
+			}
+		}
+		// ---- the sink must neither alias the caller's previous digest nor touch the tokens it reads ----
+		if it.v != nil && len(ts) > 0 {
+			f := hashFns[2+n%2]
+			saved := cloneTokens(ts)
+			var sum []byte
+			e1 := guard(func() error { return sb.Copy(tokensFrom(ts), sb.Hash(f.new, &sum, nil)) })
+			hA := sum // deliberately not copied
+			hAcopy := append([]byte{}, sum...)
+			other := randValue(r, 2, true).flatten(nil)
+			e2 := guard(func() error { return sb.Copy(tokensFrom(other), sb.Hash(f.new, &sum, nil)) })
+			repH.Evaluations += 2
+			if e1 == nil && e2 == nil && !bytes.Equal(hA, hAcopy) {
+				repH.violate("C09", "digest-aliased", fmt.Sprintf("the digest of stream A changed from %x to %x after hashing another stream into the same target variable", hAcopy, hA), "H="+f.name+" A: "+desc+" B: "+descTokens(other))
+			}
+			if !tokensExactEq(ts, saved) {
+				repH.violate("C09", "hash-modifies-tokens", "hashing a stream modified its tokens (a reference payload was overwritten)", "H="+f.name+" "+desc)
+			}
+			again, e3 := sinkHash(ts, f)
+			if e1 == nil && e3 == nil && !bytes.Equal(again, hAcopy) {
+				repH.violate("C09", "hash-not-deterministic", fmt.Sprintf("hashing the same token list again gives %x, first run gave %x", again, hAcopy), "H="+f.name+" "+desc)
 			}
 		}
 		// injectivity direction on near-duplicates (sha256): change one leaf token
@@ -843,8 +870,13 @@ func refsFor(rep *Report, w *CaseWriter, r *rand.Rand, ts []sb.Token, v *gval, f
 			}
 			return nil, nil
 		}))
+		subSaved := cloneTokens(sub)
 		subHash, eH := sinkHash(sub, f)
-		rep.Evaluations += 2
+		subHash2, _ := sinkHash(sub, f)
+		rep.Evaluations += 3
+		if eS == nil && (!tokensExactEq(sub, subSaved) || !bytes.Equal(subHash, subHash2)) {
+			rep.violate("C10", "hash-modifies-substituted-stream", fmt.Sprintf("hashing the substituted stream changed its reference tokens / its hash on a second run (%x then %x)", subHash, subHash2), fmt.Sprintf("sel=%v %s", selIdx, desc))
+		}
 		byHash := map[string]*sb.Tree{}
 		for _, n := range sel {
 			if _, ok := byHash[string(n.Hash)]; !ok {
@@ -855,6 +887,9 @@ func refsFor(rep *Report, w *CaseWriter, r *rand.Rand, ts []sb.Token, v *gval, f
 		eD := guard(func() error {
 			s := sb.Deref(tokensFrom(sub), func(h []byte) (sb.Stream, error) {
 				if fail[string(h)] {
+					if si%8 == 7 {
+						return nil, fmt.Errorf("%w (%w)", errInjected, sb.NotFound) // a resolver backed by FindByHash
+					}
 					return nil, errInjected
 				}
 				if decl[string(h)] {
@@ -913,6 +948,17 @@ func refsFor(rep *Report, w *CaseWriter, r *rand.Rand, ts []sb.Token, v *gval, f
 		w.add(fmt.Sprintf("RefCase %s %d %s %s %s %s %s %s %s", coqTokens(ts), f.id, coqNats(selIdx), coqNats(declIdx), coqNats(failIdx),
 			sobs(sub, eS), dobs(subHash, eH), sobs(out, eD), coqTokens(out)), rdesc, true)
 	}
+}
+
+func cloneTokens(ts []sb.Token) []sb.Token {
+	out := make([]sb.Token, len(ts))
+	for i, t := range ts {
+		out[i] = t
+		if b, ok := t.Value.([]byte); ok {
+			out[i].Value = append([]byte{}, b...)
+		}
+	}
+	return out
 }
 
 func coqNats(xs []int) string {
